@@ -620,10 +620,11 @@ func aliasDest(r *rng.Rand, n *spec.Node, data any, dest reflect.Value) (any, bo
 		shared := false
 		for i := range n.Fields {
 			f := &n.Fields[i]
-			fd := dest.FieldByName(f.GoName)
-			if !fd.IsValid() {
+			sf, ok := dest.Type().FieldByName(f.GoName)
+			if !ok {
 				continue
 			}
+			fd := obs.FieldAlloc(dest, sf.Index)
 			key := f.DataKey("")
 			nd, a := aliasDest(r, f.Node, m[key], fd)
 			if a {
